@@ -42,7 +42,6 @@ type sequencer struct {
 	classes atomic.Int64
 	errPct  int // injected endpoint failures (poller error / retry paths: failed tick, backfill aborted half way)
 	failed  atomic.Int64
-	badOnce atomic.Bool // serve the next full block ill-formed (once)
 }
 
 func newSequencer(r *lib.RNG, arbitrary bool, errPct int) *sequencer {
@@ -88,14 +87,6 @@ func (s *sequencer) evolve() {
 	}
 }
 
-// restartTip starts a new round at the latest block, with at least one transaction.
-func (s *sequencer) restartTip() {
-	s.mu.Lock()
-	defer s.mu.Unlock()
-	s.vr.restart(s.vr.hi)
-	s.vr.appendTxs(s.vr.hi)
-}
-
 // isCurrent: every entry of the view is a round the sequencer currently serves.
 func (s *sequencer) isCurrent(v *preconfirmed.ChainReader) bool {
 	s.mu.Lock()
@@ -123,9 +114,6 @@ func (s *sequencer) respond(n uint64, ident string, txCount uint64) (starknet.Pr
 		}
 	}
 	u := UpdateSpec{Kind: "B", Ident: b.ident, VerOk: true, Txs: append([]TxSpec{}, b.txs...)}
-	if len(b.txs) > 0 && s.badOnce.CompareAndSwap(true, false) {
-		u.Malform = "short-receipts"
-	}
 	return u.wire(n), nil
 }
 
@@ -172,14 +160,11 @@ func (s *sequencer) Class(_ context.Context, h *felt.Felt) (core.ClassDefinition
 
 func (h *harness) pollerStage(rng *lib.RNG, rounds int) {
 	for i := 0; i < rounds; i++ {
-		h.pollerRound(rng.Fork(uint64(i)), i, false)
+		h.pollerRound(rng.Fork(uint64(i)), i)
 	}
-	// one more round in which the sequencer serves one ill-formed full block (receipts shorter
-	// than transactions): the real Poller must survive it
-	h.pollerRound(rng.Fork(uint64(rounds)), rounds, true)
 }
 
-func (h *harness) pollerRound(rng *lib.RNG, round int, malformed bool) {
+func (h *harness) pollerRound(rng *lib.RNG, round int) {
 	const nBase = 3
 	base, states := genBase(rng, nBase)
 	node, err := buildBase(rng.Bool(), base)
@@ -218,11 +203,7 @@ func (h *harness) pollerRound(rng *lib.RNG, round int, malformed bool) {
 	go func() {
 		defer wg.Done()
 		if err, panicked, stack := lib.Try(func() error { poller.Run(ctx); return nil }); panicked {
-			if malformed && !sim.badOnce.Load() {
-				violate("poller-panics-on-malformed-update", fmt.Sprintf("preconfirmed.Poller.Run panicked on an update whose receipts are shorter than its transactions (the poller goroutine of a node dies): %v\n%s", err, clip(stack)))
-			} else {
-				violate("poller-run-panics", fmt.Sprintf("preconfirmed.Poller.Run panicked: %v\n%s", err, clip(stack)))
-			}
+			violate("poller-run-panics", fmt.Sprintf("preconfirmed.Poller.Run panicked: %v\n%s", err, clip(stack)))
 		}
 	}()
 
@@ -329,16 +310,9 @@ func (h *harness) pollerRound(rng *lib.RNG, round int, malformed bool) {
 	}
 	// the canonical chain and the sequencer move
 	steps := h.f.Scale(60, 400)
-	if malformed {
-		steps = 25
-	}
 	moves := 0
 	for i := 0; i < steps; i++ {
 		time.Sleep(time.Duration(2+rng.Intn(6)) * time.Millisecond)
-		if malformed && i == 8 {
-			sim.restartTip() // a new round with transactions: the next poll gets a full block
-			sim.badOnce.Store(true)
-		}
 		switch c := rng.Intn(10); {
 		case c < 6:
 			sim.evolve()
@@ -407,13 +381,6 @@ func (h *harness) pollerRound(rng *lib.RNG, round int, malformed bool) {
 	h.res.HitN("poller-state-comparisons-discarded-moved", int(discarded.Load()))
 	h.res.HitN("poller-reader-views-nonempty", int(nonEmpty.Load()))
 	h.res.HitN(fmt.Sprintf("poller-max-view-len=%d", min(maxLen.Load(), 5)), 1)
-	if malformed {
-		if sim.badOnce.Load() {
-			h.res.Fatalf("poller stage: the ill-formed block was never served")
-		} else {
-			h.res.Hit("poller-malformed-block-served")
-		}
-	}
 	h.res.Case(fmt.Sprintf("poller/%d/%d", h.f.Seed, round), nonEmpty.Load() > 0)
 	for _, f := range found {
 		h.res.Violate(lib.Violation{Sig: f.sig, What: f.what,
